@@ -69,6 +69,11 @@ type c11Op struct {
 	Node   string `json:"node"`
 }
 
+type c11Pending struct {
+	sparseNode, sparseDesc string
+	dump                   []string
+}
+
 // c11CheckHistory is installed by c11_porc_test.go (build tag verifporc).
 // It returns the verdict ("Ok" / "Illegal" / "Unknown") and the keys whose
 // sub-history is not linearizable.
@@ -105,8 +110,14 @@ type c11Env struct {
 	inconc  bool
 	coldSet []c11Key // cold keys that were set at least once
 	flagged map[string]bool // keys already reported by the direct oracle
+	// what was observed when a fetch looked stale while other clients were
+	// still running (classified at the end, with the complete history)
+	pending  map[int]c11Pending
+	reported map[int]bool // fetches (by seq) already reported when they were observed
 	val     int64
 	coldSeq int64
+	// timeout of one operation; changed only while no client is running
+	opTimeout time.Duration
 
 	cleanMu    sync.Mutex
 	cleanTicks int64 // hook clean.afterCleanSegments
@@ -156,6 +167,13 @@ func (e *c11Env) snapshot() []c11Op {
 
 const c11OpTimeout = 15 * time.Second
 
+func (e *c11Env) timeout() time.Duration {
+	if e.opTimeout > 0 {
+		return e.opTimeout
+	}
+	return c11OpTimeout
+}
+
 func (e *c11Env) doSet(n *vfNode, cl int, k c11Key, phase string) c11Op {
 	v := atomic.AddInt64(&e.val, 1)
 	op := c11Op{Client: cl, Kind: "set", Key: k.String(), Val: v, Phase: phase, Node: n.ID}
@@ -165,7 +183,7 @@ func (e *c11Env) doSet(n *vfNode, cl int, k c11Key, phase string) c11Op {
 		op.Ret, op.Err = c11Open, "node down"
 		return e.record(op)
 	}
-	ctx, cancel := context.WithTimeout(context.Background(), c11OpTimeout)
+	ctx, cancel := context.WithTimeout(context.Background(), e.timeout())
 	op.Call = c11Now()
 	_, err := srv.api.SetCursor(ctx, &client.SetCursorRequest{Stream: k.Stream, Partition: k.Part, CursorId: k.ID, Offset: v})
 	op.Ret = c11Now()
@@ -190,7 +208,7 @@ func (e *c11Env) doFetch(n *vfNode, cl int, k c11Key, phase string) c11Op {
 		op.Ret, op.Err = op.Call, "node down"
 		return e.record(op)
 	}
-	ctx, cancel := context.WithTimeout(context.Background(), c11OpTimeout)
+	ctx, cancel := context.WithTimeout(context.Background(), e.timeout())
 	op.Call = c11Now()
 	resp, err := srv.api.FetchCursor(ctx, &client.FetchCursorRequest{Stream: k.Stream, Partition: k.Part, CursorId: k.ID})
 	op.Ret = c11Now()
@@ -301,6 +319,9 @@ func (e *c11Env) fingerprint(kind, phase string) string {
 		kind = "stale"
 	}
 	fp := "C11:" + kind + "-" + c11Context(phase)
+	if strings.HasPrefix(phase, "close-during-compaction") || strings.HasPrefix(phase, "keys-") {
+		return fp // scenario units: the context names the schedule / input class
+	}
 	if e.cfg.CacheOff {
 		fp += ":cache-off"
 	}
@@ -360,7 +381,7 @@ func (e *c11Env) dumpKey(key string) []string {
 			out = append(out, fmt.Sprintf("node %s: cursors partition %d paused or missing", n.ID, pid))
 			continue
 		}
-		recs, err := vfReadLog(p.log, 0, true)
+		recs, err := c11ReadLogRetry(p)
 		line := fmt.Sprintf("node %s partition %d hw=%d newest=%d oldest=%d records=%d segments=%v err=%v; entries for key:", n.ID, pid,
 			p.log.HighWatermark(), p.log.NewestOffset(), p.log.OldestOffset(), len(recs), c11SegmentBases(srv, pid), err)
 		for _, r := range recs {
@@ -399,18 +420,33 @@ func (e *c11Env) violation(kind, phase, what string, key string, seq int) {
 		e.flagged = map[string]bool{}
 	}
 	e.flagged[key] = true
+	if e.reported == nil {
+		e.reported = map[int]bool{}
+	}
+	e.reported[seq] = true
 	e.mu.Unlock()
 	fp := e.fingerprint(kind, phase)
+	e.mu.Lock()
+	pend, havePend := e.pending[seq]
+	e.mu.Unlock()
 	if kind == "stale" || kind == "fetch-fails" {
 		// Observable state that explains a wrong answer from the log: the HW
 		// lies in a compacted (sparse) segment, where the reverse reader's
 		// start slot "offset - BaseOffset" is not the entry of that offset.
-		if node, desc := e.hwInSparseSegment(key); node != "" {
+		node, desc := pend.sparseNode, pend.sparseDesc
+		if !havePend {
+			node, desc = e.hwInSparseSegment(key)
+		}
+		if node != "" {
 			fp = "C11:stale-after-compaction"
 			what += fmt.Sprintf("; on node %s the cursors partition's HW lies in a compacted segment (%s), so the reverse scan that looks for the cursor starts at index slot HW-BaseOffset, which is not the HW's entry in a sparse segment", node, desc)
 		}
 	}
-	e.rep.Violation(fp, what+" ["+e.cfg.sig()+"]", e.witness(key, seq))
+	w := e.witness(key, seq)
+	if havePend {
+		w["cursors_log_when_observed"] = pend.dump
+	}
+	e.rep.Violation(fp, what+" ["+e.cfg.sig()+"]", w)
 }
 
 // c11WireKey is the key under which the server files the cursor.
@@ -455,7 +491,7 @@ func (e *c11Env) hwInSparseSegment(key string) (node, desc string) {
 		if base < 0 {
 			continue
 		}
-		recs, err := vfReadLog(p.log, 0, true)
+		recs, err := c11ReadLogRetry(p)
 		if err != nil {
 			continue
 		}
@@ -470,6 +506,25 @@ func (e *c11Env) hwInSparseSegment(key string) (node, desc string) {
 		}
 	}
 	return "", ""
+}
+
+// c11ReadLogRetry reads the whole partition log; a read that loses a segment
+// to the log's own cleaner is repeated.
+func c11ReadLogRetry(p *partition) (recs []vfLogRec, err error) {
+	for i := 0; i < 40; i++ {
+		// vfReadLog ends silently at the first read error, so a complete read
+		// is recognised by its last record being the log's newest offset
+		newest := p.log.NewestOffset()
+		recs, err = vfReadLog(p.log, 0, true)
+		if err == nil && (newest < 0 || (len(recs) > 0 && recs[len(recs)-1].Offset >= newest)) {
+			return recs, nil
+		}
+		time.Sleep(10 * time.Millisecond)
+	}
+	if err == nil {
+		err = fmt.Errorf("log read did not reach the end of the log")
+	}
+	return recs, err
 }
 
 func c11SegmentBaseOffsets(srv *Server, pid int32) []int64 {
@@ -493,7 +548,25 @@ func (e *c11Env) judgeNow(f c11Op, inline bool) bool {
 	ops := e.snapshot()
 	byKey, valKey := c11Index(ops)
 	kind, what := c11Judge(byKey[f.Key], valKey, f)
-	if kind == "" || (inline && !strings.HasPrefix(kind, "stale")) {
+	if kind == "" {
+		return true
+	}
+	if inline {
+		// Not the whole story yet (a fetch that raced the overwriting set may
+		// not have returned): keep what the log looks like now and let
+		// finish() classify with the complete history.
+		if strings.HasPrefix(kind, "stale") {
+			node, desc := e.hwInSparseSegment(f.Key)
+			dump := e.dumpKey(f.Key)
+			e.mu.Lock()
+			if e.pending == nil {
+				e.pending = map[int]c11Pending{}
+			}
+			if len(e.pending) < 64 {
+				e.pending[f.Seq] = c11Pending{node, desc, dump}
+			}
+			e.mu.Unlock()
+		}
 		return true
 	}
 	e.violation(kind, f.Phase, what, f.Key, f.Seq)
@@ -564,7 +637,7 @@ func c11LogStats(srv *Server) (records, segments int64) {
 		if p.IsPaused() {
 			continue
 		}
-		recs, _ := vfReadLog(p.log, 0, true)
+		recs, _ := c11ReadLogRetry(p)
 		records += int64(len(recs))
 		segments += int64(len(c11SegmentBases(srv, p.Id)))
 	}
@@ -989,6 +1062,12 @@ func (e *c11Env) finish() {
 			continue
 		}
 		nf++
+		e.mu.Lock()
+		seen := e.reported[o.Seq]
+		e.mu.Unlock()
+		if seen {
+			continue
+		}
 		if kind, what := c11Judge(byKey[o.Key], valKey, o); kind != "" {
 			e.violation(kind, o.Phase, what, o.Key, o.Seq)
 		}
